@@ -626,15 +626,20 @@ let () =
           oracle_case emit "c14.lsda" (simple ~eh { cie0 with lsda_enc = Some 0 } { fde0 with flsda = a });
           oracle_case emit "c14.lsda" (simple ~eh { cie0 with lsda_enc = Some 0x1b } fde0)) [ false; true ])
 
-(* finding: address sizes that are not 1/2/4/8 — 0 panics (checked) or appends nops without end (release), other
-   non-powers of two trip a debug_assert; the property wants an error. Expected = the repaired behaviour. *)
+(* regression (repo 768c9da): address sizes that are not 1/2/4/8 are rejected with UnsupportedWordSize; 0 used to
+   panic (checked builds) or to append nops without end (release), which the harness's 1 MiB watchdog writer reports *)
 let () =
-  register "c14.f_asz" ~doc:"finding: address_size 0 (and other sizes that are not 1/2/4/8) must be rejected with an error; watchdog writer capped at 1 MiB"
+  register "c14.asz" ~doc:"regression (repo 768c9da): address_size 0..255 outside 1/2/4/8 is UnsupportedWordSize; watchdog writer capped at 1 MiB"
     (fun ~seed:_ ~n:_ emit ->
       List.iter (fun eh ->
-          List.iter (fun asz ->
+          for asz = 0 to 255 do
+            if asz < 10 || asz land 7 = 0 || asz = 255 then
               List.iter (fun fenc ->
                   let s = simple ~eh { cie0 with asz; ver = (if eh then 1 else 4); fenc } fde0 in
-                  both_s emit (fun () -> tok_script "c14.f_asz" s) (fun _ -> "err UnsupportedWordSize"))
-                [ 0; 0x1b ]) [ 0; 3; 5; 6; 7 ]) [ false; true ])
+                  both_s emit (fun () -> tok_script "c14.asz" s) (fun dbg ->
+                      match run_model dbg s with
+                      | Res.Ok ((bs, _), _) -> Printf.sprintf "ok %d" (List.length bs)
+                      | r -> show_class_err r))
+                [ 0; 0x1b ]
+          done) [ false; true ])
 let init () = ()
